@@ -74,7 +74,7 @@ Check ==
       \/ (\A k \in 1..Len(dm) :
             LET n == dm[k].n
                 st == Norm(x.s[n].type, StoredOf(dm, n)) IN
-            (x.s[n].ch = "" /\ L.U[n] = NoVal /\ A0.core[n].vis = 2 /\ ~A0.core[n].forced
+            (x.s[n].ch = "" /\ L.U[n] = NoVal /\ A0.core[n].vis = 2 /\ A0.core[n].src \notin {"select", "set"}
              /\ ValidFor(x.s[n].type, StoredOf(dm, n)) /\ InRangeNow(A0, n, st))
               => (o.vals0[IdxOf(n)] = st /\ o.marks0[IdxOf(n)] = "d"))
       \/ say("P-PolicySdkconfig", dm, o.vals0))
